@@ -313,3 +313,219 @@ Proof.
     + exfalso. destruct r1; cbn [pow_modelled] in Hm; try discriminate.
       cbn [is_num_b] in Eb. rewrite andb_true_r in Eb. rewrite Eb in Hm. discriminate.
 Qed.
+
+(* ------------------------------------------------------- comparisons *)
+Lemma tcv_shape_m v : scalar v -> in_error_codes v = Ok false ->
+  exists t d, excelutil.f_type_cmp_value v = Ok (VTuple [VInt t; d])
+              /\ scalar d /\ d <> VNone /\ in_error_codes d = Ok false /\ cmp_modelled d = true.
+Proof.
+  intros Hs He. destruct v; cbn [scalar] in Hs; try contradiction.
+  - exists 0, (VFloat 0). rewrite tcv_none. repeat split; discriminate.
+  - exists 2, (VBool false). rewrite tcv_bool. repeat split; discriminate.
+  - exists 0, (VFloat 0). rewrite tcv_int. repeat split; discriminate.
+  - exists 0, (VFloat 0). rewrite tcv_float. repeat split; discriminate.
+  - exists 1, (VStr []). rewrite (tcv_str s He). repeat split; discriminate.
+Qed.
+
+Lemma cmp_keys_defined l r : scalar l -> scalar r ->
+  in_error_codes l = Ok false -> in_error_codes r = Ok false ->
+  cmp_modelled l = true -> cmp_modelled r = true ->
+  exists ks, cmp_keys l r = Ok ks.
+Proof.
+  intros Hsl Hsr Hel Her Hml Hmr. unfold cmp_keys.
+  destruct (tcv_shape_m r Hsr Her) as (tr & dr & Htr & Hdr1 & Hdr2 & Hdr3 & Hdr4).
+  rewrite Htr. cbn [bind].
+  assert (Hl1 : exists l1, (if is_blank l then py_getitem (VTuple [VInt tr; dr]) (VInt 1) else Ok l) = Ok l1
+                           /\ scalar l1 /\ l1 <> VNone /\ in_error_codes l1 = Ok false
+                           /\ cmp_modelled l1 = true).
+  { destruct (is_blank l) eqn:Eb.
+    - exists dr. cbn [py_getitem as_index]. rewrite index_nth_1. auto.
+    - exists l. repeat split; auto. apply not_blank_not_none. exact Eb. }
+  destruct Hl1 as (l1 & -> & Hs1 & Hn1 & He1 & Hm1). cbn [bind].
+  destruct (tcv_shape_m l1 Hs1 He1) as (tl & dl & Htl & Hdl1 & Hdl2 & Hdl3 & Hdl4).
+  rewrite Htl. cbn [bind].
+  assert (Hr1 : exists r1, (if is_blank r then py_getitem (VTuple [VInt tl; dl]) (VInt 1) else Ok r) = Ok r1
+                           /\ scalar r1 /\ r1 <> VNone /\ in_error_codes r1 = Ok false
+                           /\ cmp_modelled r1 = true).
+  { destruct (is_blank r) eqn:Eb.
+    - exists dl. cbn [py_getitem as_index]. rewrite index_nth_1. auto.
+    - exists r. repeat split; auto. apply not_blank_not_none. exact Eb. }
+  destruct Hr1 as (r1 & -> & Hs2 & Hn2 & He2 & Hm2). cbn [bind].
+  rewrite (excel_cmp_key_of l1 Hs1 Hn1 He1), (excel_cmp_key_of r1 Hs2 Hn2 He2).
+  destruct (key_of_defined l1 Hs1 Hn1 Hm1) as (k1 & ->).
+  destruct (key_of_defined r1 Hs2 Hn2 Hm2) as (k2 & ->). cbn [bind]. eauto.
+Qed.
+
+Lemma cmp_total l o r : scalar l -> scalar r ->
+  in_error_codes l = Ok false -> in_error_codes r = Ok false ->
+  cmp_modelled l = true -> cmp_modelled r = true -> is_cmp o = true ->
+  exists b, fixup l o r = Ok (VBool b).
+Proof.
+  intros Hsl Hsr Hel Her Hml Hmr Ho.
+  destruct (cmp_keys_defined l r Hsl Hsr Hel Her Hml Hmr) as (ks & Hk).
+  destruct (trichotomy l r ks Hsl Hsr Hel Her Hk) as (lt & eq & gt & H1 & H2 & H3 & _ & H5 & H6 & H7).
+  destruct o; try discriminate Ho; eauto.
+Qed.
+
+(* an unmodelled text is neither blank nor an error value *)
+Lemma unmodelled_text v : scalar v -> cmp_modelled v = false ->
+  exists s, v = VStr s /\ non_ascii s = true /\ case_ok s = false.
+Proof.
+  destruct v; cbn [scalar cmp_modelled]; try contradiction; try discriminate. intros _ H.
+  exists s. apply orb_false_iff in H. destruct H as [H1 H2]. apply negb_false_iff in H1. auto.
+Qed.
+Lemma non_ascii_not_blank s : non_ascii s = true -> is_blank (VStr s) = false.
+Proof.
+  intros H. destruct (is_blank (VStr s)) eqn:E; [|reflexivity].
+  cbn [is_blank py_eq] in E. unfold excelutil.c_EMPTY in E. cbn [py_eq] in E.
+  apply str_eqb_eq in E. subst s. discriminate.
+Qed.
+
+Lemma cmp_unmodelled l o r : scalar l -> scalar r ->
+  in_error_codes l = Ok false -> in_error_codes r = Ok false -> is_cmp o = true ->
+  cmp_modelled l = false \/ cmp_modelled r = false ->
+  fixup l o r = Raise Unmodelled.
+Proof.
+  intros Hsl Hsr Hel Her Ho Hm. unfold fixup. rewrite Hel. cbn [bind]. rewrite Her. cbn [bind]. rewrite Ho.
+  assert (Hk : cmp_keys l r = Raise Unmodelled); [|rewrite Hk; reflexivity].
+  unfold cmp_keys.
+  destruct (tcv_shape_m r Hsr Her) as (tr & dr & Htr & Hdr1 & Hdr2 & Hdr3 & Hdr4).
+  rewrite Htr. cbn [bind].
+  assert (Hl1 : exists l1, (if is_blank l then py_getitem (VTuple [VInt tr; dr]) (VInt 1) else Ok l) = Ok l1
+                           /\ scalar l1 /\ l1 <> VNone /\ in_error_codes l1 = Ok false
+                           /\ cmp_modelled l1 = cmp_modelled l).
+  { destruct (is_blank l) eqn:Eb.
+    - exists dr. cbn [py_getitem as_index]. rewrite index_nth_1. repeat split; auto.
+      destruct (cmp_modelled l) eqn:El; [exact Hdr4|].
+      destruct (unmodelled_text l Hsl El) as (s & -> & Hna & _).
+      rewrite (non_ascii_not_blank s Hna) in Eb. discriminate.
+    - exists l. repeat split; auto. apply not_blank_not_none. exact Eb. }
+  destruct Hl1 as (l1 & -> & Hs1 & Hn1 & He1 & Hm1). cbn [bind].
+  destruct (tcv_shape_m l1 Hs1 He1) as (tl & dl & Htl & Hdl1 & Hdl2 & Hdl3 & Hdl4).
+  rewrite Htl. cbn [bind].
+  assert (Hr1 : exists r1, (if is_blank r then py_getitem (VTuple [VInt tl; dl]) (VInt 1) else Ok r) = Ok r1
+                           /\ scalar r1 /\ r1 <> VNone /\ in_error_codes r1 = Ok false
+                           /\ cmp_modelled r1 = cmp_modelled r).
+  { destruct (is_blank r) eqn:Eb.
+    - exists dl. cbn [py_getitem as_index]. rewrite index_nth_1. repeat split; auto.
+      destruct (cmp_modelled r) eqn:Er; [exact Hdl4|].
+      destruct (unmodelled_text r Hsr Er) as (s & -> & Hna & _).
+      rewrite (non_ascii_not_blank s Hna) in Eb. discriminate.
+    - exists r. repeat split; auto. apply not_blank_not_none. exact Eb. }
+  destruct Hr1 as (r1 & -> & Hs2 & Hn2 & He2 & Hm2). cbn [bind].
+  rewrite (excel_cmp_key_of l1 Hs1 Hn1 He1), (excel_cmp_key_of r1 Hs2 Hn2 He2).
+  destruct (cmp_modelled l) eqn:El.
+  - destruct Hm as [Hm|Hm]; [discriminate|]. rewrite Hm in Hm2.
+    destruct (key_of_defined l1 Hs1 Hn1 Hm1) as (k1 & ->). cbn [bind].
+    rewrite (key_of_undefined r1 Hs2 Hn2 Hm2). reflexivity.
+  - rewrite (key_of_undefined l1 Hs1 Hn1 Hm1). reflexivity.
+Qed.
+
+(* ------------------------------------------------------------------- & *)
+(* the Excel rendering of a scalar, written independently of the code:
+   blank as empty, TRUE/FALSE, integers and integral floats without ".0",
+   other floats as Python's repr, text unchanged *)
+Definition xl_render (v : pyval) : res str :=
+  if is_blank v then Ok [] else
+  match v with
+  | VBool b => Ok (if b then t_TRUE else t_FALSE)
+  | VInt z => Ok (str_of_Z z)
+  | VFloat q => if integral q then Ok (str_of_Z (q_trunc q)) else float_repr q
+  | VStr s => Ok s
+  | _ => Raise Unmodelled
+  end.
+
+Lemma concat_render_spec v : scalar v -> concat_render v = (s <- xl_render v ;; Ok (VStr s)).
+Proof.
+  intros Hs. unfold concat_render, xl_render. destruct (is_blank v) eqn:Eb; [reflexivity|].
+  destruct v; cbn [scalar] in Hs; try contradiction.
+  - discriminate Eb.
+  - destruct b; reflexivity.
+  - rewrite coerce_int. reflexivity.
+  - rewrite coerce_float. destruct (integral q); cbn [lift1 bind py_str]; [reflexivity|].
+    destruct (float_repr q); reflexivity.
+  - reflexivity.
+Qed.
+
+Lemma concat_spec l r : scalar l -> scalar r ->
+  in_error_codes l = Ok false -> in_error_codes r = Ok false ->
+  fixup l BitAnd r = (a <- xl_render l ;; b <- xl_render r ;; Ok (VStr (a ++ b))).
+Proof.
+  intros Hsl Hsr Hel Her. unfold fixup. rewrite Hel. cbn [bind]. rewrite Her. cbn [bind is_cmp].
+  rewrite (concat_render_spec l Hsl), (concat_render_spec r Hsr).
+  destruct (xl_render l) as [a|e]; cbn [bind]; [|reflexivity].
+  destruct (xl_render r) as [b|e]; cbn [bind]; reflexivity.
+Qed.
+
+Definition concat_modelled (v : pyval) : bool :=
+  match v with
+  | VFloat q => integral q || match float_repr q with Ok _ => true | Raise _ => false end
+  | _ => true
+  end.
+
+Lemma float_repr_raise q e : float_repr q = Raise e -> e = Unmodelled.
+Proof.
+  unfold float_repr.
+  repeat match goal with
+         | |- context [match ?E with pair _ _ => _ end] => destruct E as [? ?]
+         | |- context [if ?b then _ else _] => destruct b
+         end; congruence.
+Qed.
+
+Lemma xl_render_defined v : scalar v -> concat_modelled v = true -> exists s, xl_render v = Ok s.
+Proof.
+  intros Hs Hm. unfold xl_render. destruct (is_blank v) eqn:Eb; [eauto|].
+  destruct v; cbn [scalar] in Hs; try contradiction; try discriminate Eb; eauto.
+  cbn [concat_modelled] in Hm. destruct (integral q); [eauto|]. cbn [orb] in Hm.
+  destruct (float_repr q); [eauto|discriminate].
+Qed.
+Lemma xl_render_undefined v : scalar v -> concat_modelled v = false -> xl_render v = Raise Unmodelled.
+Proof.
+  intros Hs Hm. destruct v; cbn [scalar concat_modelled] in *; try contradiction; try discriminate.
+  apply orb_false_iff in Hm. destruct Hm as [Hi Hf]. unfold xl_render. cbn [is_blank py_eq as_num].
+  replace (py_eq (VFloat q) excelutil.c_EMPTY) with false by reflexivity. rewrite Hi.
+  destruct (float_repr q) as [s|e] eqn:E; [discriminate|]. rewrite (float_repr_raise q e E). reflexivity.
+Qed.
+
+Lemma concat_total l r : scalar l -> scalar r ->
+  in_error_codes l = Ok false -> in_error_codes r = Ok false ->
+  concat_modelled l = true -> concat_modelled r = true ->
+  exists s, fixup l BitAnd r = Ok (VStr s).
+Proof.
+  intros Hsl Hsr Hel Her Hml Hmr. rewrite (concat_spec l r Hsl Hsr Hel Her).
+  destruct (xl_render_defined l Hsl Hml) as (a & ->). destruct (xl_render_defined r Hsr Hmr) as (b & ->).
+  cbn [bind]. eauto.
+Qed.
+Lemma concat_unmodelled l r : scalar l -> scalar r ->
+  in_error_codes l = Ok false -> in_error_codes r = Ok false ->
+  concat_modelled l = false \/ concat_modelled r = false ->
+  fixup l BitAnd r = Raise Unmodelled.
+Proof.
+  intros Hsl Hsr Hel Her Hm. rewrite (concat_spec l r Hsl Hsr Hel Her).
+  destruct (concat_modelled l) eqn:El.
+  - destruct Hm as [Hm|Hm]; [discriminate|].
+    destruct (xl_render_defined l Hsl El) as (a & ->). cbn [bind].
+    rewrite (xl_render_undefined r Hsr Hm). reflexivity.
+  - rewrite (xl_render_undefined l Hsl El). reflexivity.
+Qed.
+
+(* integral floats render without ".0", whatever their magnitude *)
+Lemma integral_inject q z : (q == inject_Z z)%Q -> integral q = true /\ q_trunc q = z.
+Proof.
+  intros H. assert (Ht : q_trunc q = z) by (rewrite (q_trunc_comp q (inject_Z z) H); apply q_trunc_inject).
+  split; [|exact Ht]. unfold integral. rewrite Ht. apply q_eqb_eq. symmetry. exact H.
+Qed.
+Lemma render_integral_float q z : (q == inject_Z z)%Q -> xl_render (VFloat q) = Ok (str_of_Z z).
+Proof.
+  intros H. destruct (integral_inject q z H) as [Hi Ht]. unfold xl_render.
+  replace (is_blank (VFloat q)) with false by reflexivity. rewrite Hi, Ht. reflexivity.
+Qed.
+Lemma concat_integral_float q z r b : (q == inject_Z z)%Q -> scalar r ->
+  in_error_codes r = Ok false -> xl_render r = Ok b ->
+  fixup (VFloat q) BitAnd r = Ok (VStr (str_of_Z z ++ b))
+  /\ fixup r BitAnd (VFloat q) = Ok (VStr (b ++ str_of_Z z)).
+Proof.
+  intros H Hs He Hb.
+  rewrite (concat_spec (VFloat q) r I Hs eq_refl He), (concat_spec r (VFloat q) Hs I He eq_refl).
+  rewrite (render_integral_float q z H), Hb. split; reflexivity.
+Qed.
